@@ -19,18 +19,44 @@ type Guard struct {
 // Leaf is one entry→return path of a loop-free function: the conditions
 // assumed on the way and the returned terms.
 type Leaf struct {
-	Guards []*Term
-	Ret    []*Term
-	Pos    token.Pos // position of the return
-	Stores []StoreFact
+	Guards  []*Term
+	Ret     []*Term
+	Pos     token.Pos // position of the return
+	Effects []Effect  // stores to non-local memory, map updates and calls, in path order (only with LeafOptions.Effects)
+	Blocks  []int     // indices of the blocks on the path
 }
 
-// StoreFact records a non-local store seen on the path (for rules that must
-// know a function writes nothing).
-type StoreFact struct {
-	Addr *Term
-	Val  *Term
+// Effect is one side effect or call executed on a path.
+type Effect struct {
+	Kind string // store | map-update | call
+	Addr *Term  // store: location term; map-update: the map
+	Key  *Term  // map-update
+	Val  *Term  // stored value / call term
 	Pos  token.Pos
+	NG   int // number of guards assumed when the effect happens
+}
+
+// isLocalLoc: the location is (part of) a local allocation.
+func isLocalLoc(a *Term) bool {
+	for a != nil {
+		switch a.Op {
+		case OAlloc:
+			return true
+		case OIndex:
+			a = a.Args[0]
+			if a.Op == OAddr {
+				a = a.Args[0]
+			}
+		case "deref":
+			a = a.Args[0]
+			if a.Op == OAddr {
+				a = a.Args[0]
+			}
+		default:
+			return false
+		}
+	}
+	return false
 }
 
 func (l *Leaf) GuardKeys() []string {
@@ -59,6 +85,7 @@ type LeafOptions struct {
 	InlineOK func(*ssa.Function) bool
 	Forward  bool
 	MaxPaths int
+	Effects  bool
 }
 
 // Leaves enumerates the entry→return paths of a loop-free function.
@@ -74,6 +101,8 @@ func Leaves(fn *ssa.Function, opt LeafOptions) ([]*Leaf, error) {
 	type state struct {
 		phi    map[*ssa.Phi]ssa.Value
 		guards []*Term
+		eff    []Effect
+		blocks []int
 	}
 	var err error
 	var walk func(blk, pred *ssa.BasicBlock, st state)
@@ -128,16 +157,35 @@ func Leaves(fn *ssa.Function, opt LeafOptions) ([]*Leaf, error) {
 		b.PhiChoice = phi
 		b.Forward = opt.Forward
 		b.InlineOK = opt.InlineOK
+		eff := st.eff
+		blocks := append(append([]int{}, st.blocks...), blk.Index)
+		if opt.Effects {
+			eff = append([]Effect{}, st.eff...)
+			for _, in := range blk.Instrs {
+				switch x := in.(type) {
+				case *ssa.Store:
+					a := b.Addr(x.Addr)
+					if isLocalLoc(a) {
+						continue
+					}
+					eff = append(eff, Effect{Kind: "store", Addr: a, Val: b.Term(x.Val), Pos: x.Pos(), NG: len(st.guards)})
+				case *ssa.MapUpdate:
+					eff = append(eff, Effect{Kind: "map-update", Addr: b.Term(x.Map), Key: b.Term(x.Key), Val: b.Term(x.Value), Pos: x.Pos(), NG: len(st.guards)})
+				case *ssa.Call:
+					eff = append(eff, Effect{Kind: "call", Val: b.Term(x), Pos: x.Pos(), NG: len(st.guards)})
+				}
+			}
+		}
 		last := blk.Instrs[len(blk.Instrs)-1]
 		switch t := last.(type) {
 		case *ssa.Return:
-			lf := &Leaf{Guards: append([]*Term{}, st.guards...), Pos: t.Pos()}
+			lf := &Leaf{Guards: append([]*Term{}, st.guards...), Pos: t.Pos(), Effects: eff, Blocks: blocks}
 			for _, r := range t.Results {
 				lf.Ret = append(lf.Ret, b.Term(r))
 			}
 			out = append(out, lf)
 		case *ssa.Jump:
-			walk(blk.Succs[0], blk, state{phi, st.guards})
+			walk(blk.Succs[0], blk, state{phi, st.guards, eff, blocks})
 		case *ssa.If:
 			c := b.Term(t.Cond)
 			for i, succ := range blk.Succs {
@@ -147,7 +195,7 @@ func Leaves(fn *ssa.Function, opt LeafOptions) ([]*Leaf, error) {
 				}
 				if g.Op == OConst && g.C != nil && g.C.Kind() == constant.Bool {
 					if constant.BoolVal(g.C) {
-						walk(succ, blk, state{phi, st.guards})
+						walk(succ, blk, state{phi, st.guards, eff, blocks})
 					}
 					continue
 				}
@@ -170,7 +218,7 @@ func Leaves(fn *ssa.Function, opt LeafOptions) ([]*Leaf, error) {
 				if !have {
 					gs = append(append([]*Term{}, st.guards...), g)
 				}
-				walk(succ, blk, state{phi, gs})
+				walk(succ, blk, state{phi, gs, eff, blocks})
 			}
 		case *ssa.Panic:
 			err = fmt.Errorf("%s: explicit panic at block %d", fn.String(), blk.Index)
